@@ -1,6 +1,8 @@
 package props
 
 import (
+	"github.com/uhn/ggql/pkg/ggql"
+
 	"verif/harness/sym"
 )
 
@@ -240,4 +242,65 @@ func C09_twice() {
 	sym.Assert(ran == included, "resolver runs iff included")
 	_, hasS := data["s"]
 	sym.Assert(hasS, "sibling selection unaffected")
+}
+
+// ---- the same logic on the selections of a subscription operation
+
+const c09SubSchema = `type Query { a: Int } type Obj { a: Int } type Subscription { ev: Obj }`
+
+type c09Sub struct{}
+
+func (s *c09Sub) Send(v interface{}) error { return nil }
+func (s *c09Sub) Match(id string) bool     { return true }
+func (s *c09Sub) Unsubscribe()             {}
+
+type c09SubRoot struct{ calls int }
+
+func (r *c09SubRoot) Resolve(field *ggql.Field, args map[string]interface{}) (interface{}, error) {
+	switch field.Name {
+	case "subscription", "query":
+		return r, nil
+	case "ev":
+		r.calls++
+		return ggql.NewSubscription(&c09Sub{}, field, args), nil
+	}
+	return nil, nil
+}
+
+// C09_subscription: a subscription's top-level selection is subscribed to iff
+// it is included - literal, supplied and defaulted conditions alike.
+func C09_subscription() {
+	r := &c09SubRoot{}
+	root := ggql.NewRoot(r)
+	if err := root.ParseString(c09SubSchema); err != nil {
+		panic("harness schema rejected: " + err.Error())
+	}
+	vars := map[string]interface{}{}
+	decls := ""
+	skipText, skipPresent, skipCond := dirArg("skip", "s", vars, &decls)
+	inclText, inclPresent, inclCond := dirArg("include", "i", vars, &decls)
+	dirs := skipText + inclText
+	if sym.Choice("order", 2) == 1 {
+		dirs = inclText + skipText
+	}
+	body := "{ev" + dirs + "{a}}"
+	if sym.Choice("selection kind", 2) == 1 {
+		body = "{...on Subscription" + dirs + "{ev{a}}}"
+	}
+	doc := "subscription" + body
+	if decls != "" {
+		doc = "subscription(" + decls + ")" + body
+	}
+	if sym.Choice("vars map", 2) == 1 && len(vars) == 0 {
+		vars = nil
+	}
+	sym.Observe("doc", doc)
+	res := root.ResolveString(doc, "", vars)
+	sym.Observe("res", res)
+	included := sym.And(!sym.And(skipPresent, skipCond), !sym.And(inclPresent, !inclCond))
+	sym.Assert((r.calls == 1) == included, "resolver runs iff included")
+	sym.Assert(r.calls <= 1, "resolver runs iff included")
+	if included {
+		sym.Assert(res["errors"] == nil, "an included subscription is accepted")
+	}
 }
